@@ -76,12 +76,38 @@ func c12Scenarios(c *core.Ctx) []namedScenario {
 		}
 		wo.Seal(r)
 		out = append(out, namedScenario{"platform OutOfDate", wo, nil})
+		// the quote embeds a root certificate that has expired; the trusted pool holds a re-issue of it
+		// (same key and name, later NotAfter), so path building succeeds and only the library's own
+		// expiry check of the embedded chain can reject
+		{
+			pki, err := world.NewPKI(r, world.PKIOpts{Now: baseTime, Ext: world.RandomSGXExt(r)})
+			if err != nil {
+				panic(err)
+			}
+			for _, v := range []struct {
+				name     string
+				notAfter time.Time
+			}{{"embedded root expired, re-issued root trusted", baseTime.Add(-time.Hour)}, {"embedded root in date, re-issued root trusted (control)", baseTime.AddDate(1, 0, 0)}} {
+				old, err := world.MakeCert(r, world.CertSpec{CN: "Intel SGX Root CA", NotBefore: baseTime.AddDate(-2, 0, 0), NotAfter: v.notAfter, IsCA: true,
+					CRLDP: []string{pki.Opts.RootCRLURL}}, pki.Root.Key, nil)
+				if err != nil {
+					panic(err)
+				}
+				f := world.DefaultQuoteFields(r)
+				f.ChainPEM = append(append(append([]byte{}, pki.Leaf.PEM()...), pki.Inter.PEM()...), old.PEM()...)
+				we, err := world.BuildWorld(r, baseTime, pki, f)
+				if err != nil {
+					panic(err)
+				}
+				out = append(out, namedScenario{v.name, we, nil})
+			}
+		}
 	}
 	return out
 }
 
 func C12(c *core.Ctx) {
-	c.Rule = "every generated world (honest and with one injected fault: mutated quote, foreign root, each endpoint down / garbage, broken collateral signature, revoked leaf, expired, OutOfDate platform, Processor-CA chain) under all four option combinations with a recording getter: verdict monotonicity, no fetch without collateral, CRL endpoints only with revocation, TCB-Info URL names the FMSPC and PCK-CRL URL the issuing CA, fetch failures reported as typed errors; histories of 2..5 verifications (different quotes and settings, nil and explicit time sets, certificates expiring between calls) through one shared options value compared with fresh options. non-trivial = every case; distinct = distinct (world, fault, options) / histories"
+	c.Rule = "every generated world (honest and with one injected fault: mutated quote, foreign root, each endpoint down / garbage, broken collateral signature, revoked leaf, expired, OutOfDate platform, Processor-CA chain, an expired embedded root whose re-issue is trusted) under all four option combinations with a recording getter: verdict monotonicity, no fetch without collateral, CRL endpoints only with revocation, TCB-Info URL names the FMSPC and PCK-CRL URL the issuing CA, fetch failures reported as typed errors; histories of 2..5 verifications (different quotes and settings, nil and explicit time sets, certificates expiring between calls) through one shared options value compared with fresh options. non-trivial = every case; distinct = distinct (world, fault, options) / histories"
 	scs := c12Scenarios(c)
 	combos := []struct{ col, crl bool }{{false, false}, {true, false}, {true, true}, {false, true}}
 	for _, ns := range scs {
